@@ -309,6 +309,10 @@ def walk(connection, sthr=None, jthr=None):
     for s, j in cands:
         by_s.setdefault(s, []).append(j)
         by_j.setdefault(j, []).append(s)
+    if any(len(v) >= 3 for v in by_s.values()):
+        hit('datasets-with-storm-having-3+-candidate-rises')
+    if any(len(v) >= 3 for v in by_j.values()):
+        hit('datasets-with-rise-having-3+-candidate-storms')
     if any(len(v) >= 2 for v in by_s.values()):
         hit('datasets-with-storm-having-2+-candidate-rises')
     if any(len(v) >= 2 for v in by_j.values()):
